@@ -1,3 +1,241 @@
-import AlgoVerif.Common
-/-! # C17 — property theorems (none yet) -/
--- x
+import AlgoVerif.Model.C17
+import AlgoVerif.Spec.C17
+import AlgoVerif.Proofs.C17QF
+/-!
+# C17 — union-find tracks the equivalence closure of all unions
+
+Statements only; helper lemmas are in `Proofs/C17*.lean`.
+
+Reading of the property (DESIGN.md §6).  A history is a list `us : List (Int × Int)` of `Union(p, q)`
+calls with arbitrary Go `int` arguments; `X.run us` makes the calls one after the other on
+`NewX(n)` (`X` = `QuickFind`, `QuickUnion`, `Weighted`, the line-by-line Models of
+`unionfind/unionfind.go`).  Queries do not change the structure, so "after any sequence of calls"
+is "for the state `u` with `(X.new n).run us = .ok u`".
+
+* `Spec.Conn n us p q`  — `p`, `q` are in range and linked by a chain of unions of the history whose
+  arguments were both in range (the reflexive-symmetric-transitive closure);
+* `Spec.Tracks n us find isConnected count` — the four clauses of C17 about the query results
+  (see `Spec/C17.lean`), each including that the modelled call returns (`.ok`: no index panic, and
+  the `for p != root[p]` loop does not run out of its fuel `len(root)`).
+
+Every theorem is for all `n` and all histories, valid and invalid arguments alike; there is no
+`_partial` theorem in this file.
+-/
+open AlgoVerif AlgoVerif.C17 AlgoVerif.C17.Spec
+
+/-! ## the main statement, once per implementation -/
+
+/-- quick-find: every history runs to completion and the queries are those of the closure -/
+theorem C17_quickFind_tracks (n : Nat) (us : List (Int × Int)) :
+    ∃ u, (QuickFind.new n).run us = .ok u ∧ Tracks n us u.find u.isConnected u.getCount := by
+  obtain ⟨u, h, I⟩ := QuickFind.run_inv us (QFInv.init n)
+  exact ⟨u, h, QuickFind.tracks (by simpa using I)⟩
+
+/-- quick-union -/
+theorem C17_quickUnion_tracks (n : Nat) (us : List (Int × Int)) :
+    ∃ u, (QuickUnion.new n).run us = .ok u ∧ Tracks n us u.find u.isConnected u.getCount := by
+  obtain ⟨u, h, I⟩ := QuickUnion.run_inv (u := QuickUnion.new n) us (QUInv.init n)
+  exact ⟨u, h, QuickUnion.tracks (by simpa using I)⟩
+
+/-- weighted quick-union -/
+theorem C17_weighted_tracks (n : Nat) (us : List (Int × Int)) :
+    ∃ u, (Weighted.new n).run us = .ok u ∧ Tracks n us u.find u.isConnected u.getCount := by
+  obtain ⟨u, h, I⟩ := Weighted.run_inv us (WQInv.init n)
+  exact ⟨u, h, Weighted.tracks (by simpa using I)⟩
+
+-- non-vacuity: a history with merges of two non-trivial trees, a redundant union, a self union and
+-- invalid arguments; the three final states differ, the answers do not.
+example : (QuickFind.new 6).run [(0, 1), (2, 3), (1, 3), (5, 0), (4, 4), (0, 7), (3, 0), (-1, 2)]
+    = .ok ⟨2, #[3, 3, 3, 3, 4, 3]⟩ := by decide
+example : (QuickUnion.new 6).run [(0, 1), (2, 3), (1, 3), (5, 0), (4, 4), (0, 7), (3, 0), (-1, 2)]
+    = .ok ⟨2, #[1, 3, 3, 3, 4, 3]⟩ := by decide
+example : (Weighted.new 6).run [(0, 1), (2, 3), (1, 3), (5, 0), (4, 4), (0, 7), (3, 0), (-1, 2)]
+    = .ok ⟨2, #[0, 0, 0, 2, 4, 0], #[5, 1, 2, 1, 1, 1]⟩ := by decide
+example : Conn 6 [(0, 1), (2, 3), (1, 3), (5, 0), (4, 4), (0, 7), (3, 0), (-1, 2)] 5 2 :=
+  .trans (.pair (by decide) (by decide) (by decide))
+    (.trans (.pair (p := 0) (q := 1) (by decide) (by decide) (by decide))
+      (.trans (.pair (p := 1) (q := 3) (by decide) (by decide) (by decide))
+        (.symm (.pair (p := 2) (q := 3) (by decide) (by decide) (by decide)))))
+
+/-! ## the clauses of the property spelled out
+
+`find`, `isConnected`, `count` stand for the three queries of any of the implementations. -/
+
+/-- `IsConnected(p, q)` is true exactly when a chain of earlier unions links `p` and `q` -/
+theorem C17_connected_iff_closure {n us find isConnected count}
+    (T : Tracks n us find isConnected count) (p q : Int) :
+    (isConnected p q = .ok true ↔ Conn n us p q) ∧ (isConnected p q = .ok false ↔ ¬ Conn n us p q) := by
+  obtain ⟨b, hb, hiff⟩ := T.connected_iff p q
+  rw [hb]
+  cases b
+  · have : ¬ Conn n us p q := fun h => by have := hiff.2 h; cases this
+    simp [this]
+  · have : Conn n us p q := hiff.1 rfl
+    simp [this]
+
+/-- `Find` gives two in-range elements the same representative iff they are connected, and the
+representative is a member of the class -/
+theorem C17_find_same_iff_connected {n us find isConnected count}
+    (T : Tracks n us find isConnected count) (p q : Int) (hp : Valid n p) (hq : Valid n q) :
+    ∃ rp rq, find p = .ok (rp, true) ∧ find q = .ok (rq, true) ∧ Conn n us p rp ∧ Conn n us q rq ∧
+      (rp = rq ↔ Conn n us p q) := by
+  obtain ⟨rp, h1, c1⟩ := T.find_valid p hp
+  obtain ⟨rq, h2, c2⟩ := T.find_valid q hq
+  exact ⟨rp, rq, h1, h2, c1, c2, T.find_same_iff p q rp rq true true hp hq h1 h2⟩
+
+/-- `Count` is the number of equivalence classes, and it is `n` minus the number of unions that
+joined two different classes -/
+theorem C17_count_eq_classes {n us find isConnected count}
+    (T : Tracks n us find isConnected count) :
+    0 ≤ count ∧ IsClassCount n us count.toNat ∧ count = n - numMerges n us :=
+  ⟨T.count_classes.1, T.count_classes.2, T.count_merges⟩
+
+/-- the number of classes of a relation is determined: `IsClassCount` holds of one number only
+(so the previous theorem does say "equals the number of classes") -/
+theorem C17_classCount_unique {n us k k'} (h : IsClassCount n us k) (h' : IsClassCount n us k') :
+    k = k' :=
+  IsClassCount.unique h h'
+
+/-- out-of-range `Find` is reported as not found -/
+theorem C17_find_invalid {n us find isConnected count}
+    (T : Tracks n us find isConnected count) (p : Int) (hp : ¬ (0 ≤ p ∧ p < n)) :
+    find p = .ok (-1, false) :=
+  T.find_invalid p hp
+
+-- non-vacuity of the hypotheses `Tracks …`: the three `_tracks` theorems above provide them for every
+-- history; on the example history: 5 and 2 are connected, 4 is alone, 2 classes.
+example : ∃ u, (QuickUnion.new 6).run [(0, 1), (2, 3), (1, 3), (5, 0), (4, 4), (0, 7), (3, 0), (-1, 2)] = .ok u ∧
+    u.isConnected 5 2 = .ok true ∧ u.isConnected 4 2 = .ok false ∧ u.find 5 = .ok (3, true) ∧
+    u.find 6 = .ok (-1, false) ∧ u.getCount = 2 := ⟨⟨2, #[1, 3, 3, 3, 4, 3]⟩, by decide, by decide⟩
+example : ¬ Conn 6 [(0, 1), (2, 3), (1, 3), (5, 0), (4, 4), (0, 7), (3, 0), (-1, 2)] 4 2 := by
+  obtain ⟨u, h, T⟩ := C17_quickUnion_tracks 6 [(0, 1), (2, 3), (1, 3), (5, 0), (4, 4), (0, 7), (3, 0), (-1, 2)]
+  have hu : u = ⟨2, #[1, 3, 3, 3, 4, 3]⟩ := by
+    have h' : (QuickUnion.new 6).run [(0, 1), (2, 3), (1, 3), (5, 0), (4, 4), (0, 7), (3, 0), (-1, 2)]
+      = .ok ⟨2, #[1, 3, 3, 3, 4, 3]⟩ := by decide
+    rw [h'] at h; cases h; rfl
+  subst hu
+  exact ((C17_connected_iff_closure T 4 2).2).1 (by decide)
+
+/-! ## invalid arguments change nothing — for ANY state, reachable or not -/
+
+/-- quick-find: `Union` with an out-of-range argument returns the receiver unchanged,
+`IsConnected` is false, `Find` is `(-1, false)` -/
+theorem C17_quickFind_invalid_args (u : QuickFind) (p q : Int)
+    (h : ¬ (0 ≤ p ∧ p < u.id.size) ∨ ¬ (0 ≤ q ∧ q < u.id.size)) :
+    u.union p q = .ok u ∧ u.isConnected p q = .ok false ∧
+      (¬ (0 ≤ p ∧ p < u.id.size) → u.find p = .ok (-1, false)) := by
+  refine ⟨?_, ?_, fun hp => QuickFind.find_invalid (n := u.id.size) rfl hp⟩
+  · simp only [QuickFind.union, QuickFind.isValid, decide_valid (n := u.id.size) rfl]
+    rcases h with h | h <;> simp [Valid, h]
+  · simp only [QuickFind.isConnected, QuickFind.isValid, decide_valid (n := u.id.size) rfl]
+    rcases h with h | h <;> simp [Valid, h]
+
+theorem C17_quickUnion_invalid_args (u : QuickUnion) (p q : Int)
+    (h : ¬ (0 ≤ p ∧ p < u.root.size) ∨ ¬ (0 ≤ q ∧ q < u.root.size)) :
+    u.union p q = .ok u ∧ u.isConnected p q = .ok false ∧
+      (¬ (0 ≤ p ∧ p < u.root.size) → u.find p = .ok (-1, false)) := by
+  refine ⟨?_, ?_, fun hp => QuickUnion.find_invalid (n := u.root.size) rfl hp⟩
+  · simp only [QuickUnion.union, QuickUnion.isValid, decide_valid (n := u.root.size) rfl]
+    rcases h with h | h <;> simp [Valid, h]
+  · simp only [QuickUnion.isConnected, QuickUnion.isValid, decide_valid (n := u.root.size) rfl]
+    rcases h with h | h <;> simp [Valid, h]
+
+theorem C17_weighted_invalid_args (u : Weighted) (p q : Int)
+    (h : ¬ (0 ≤ p ∧ p < u.root.size) ∨ ¬ (0 ≤ q ∧ q < u.root.size)) :
+    u.union p q = .ok u ∧ u.isConnected p q = .ok false ∧
+      (¬ (0 ≤ p ∧ p < u.root.size) → u.find p = .ok (-1, false)) := by
+  refine ⟨?_, ?_, fun hp => Weighted.find_invalid (n := u.root.size) rfl hp⟩
+  · simp only [Weighted.union, Weighted.isValid, decide_valid (n := u.root.size) rfl]
+    rcases h with h | h <;> simp [Valid, h]
+  · simp only [Weighted.isConnected, Weighted.isValid, decide_valid (n := u.root.size) rfl]
+    rcases h with h | h <;> simp [Valid, h]
+
+example : (⟨1, #[1, 1, 1]⟩ : QuickUnion).union 1 3 = .ok ⟨1, #[1, 1, 1]⟩ := by decide
+
+/-- … and an invalid call leaves the closure itself unchanged -/
+theorem C17_invalid_union_keeps_closure (n : Nat) (us : List (Int × Int)) (a b : Int)
+    (h : ¬ ((0 ≤ a ∧ a < n) ∧ (0 ≤ b ∧ b < n))) (p q : Int) :
+    Conn n (us ++ [(a, b)]) p q ↔ Conn n us p q :=
+  conn_snoc_invalid h
+
+/-! ## `Find` never diverges: the forest is acyclic, with an explicit rank -/
+
+/-- quick-union after any history: there is a rank `rk` that strictly increases along every parent
+link and satisfies `rk i + count ≤ n`; the number of roots is `count ≥ 1` (for `n > 0`); hence a climb
+from any element takes at most `n - count ≤ n - 1` steps and `findLoop` with fuel `n = len(root)`
+returns a root — it neither runs out of fuel (`diverge`) nor indexes out of range (`panic`). -/
+theorem C17_quickUnion_find_terminates (n : Nat) (us : List (Int × Int)) (u : QuickUnion)
+    (h : (QuickUnion.new n).run us = .ok u) :
+    u.root.size = n ∧
+    (∃ rk : Int → Nat, (∀ i, Valid n i → par u.root i ≠ i → rk i < rk (par u.root i)) ∧
+      (∀ i, Valid n i → (rk i : Int) + u.count ≤ n)) ∧
+    (0 < n → 1 ≤ u.count) ∧
+    (∀ p, Valid n p → ∃ r, findLoop u.root n p = .ok r ∧ Valid n r ∧ par u.root r = r) := by
+  obtain ⟨u', h', I⟩ := QuickUnion.run_inv (u := QuickUnion.new n) us (QUInv.init n)
+  rw [h] at h'; cases h'
+  have F := I.forest
+  refine ⟨F.size, F.rank, ?_, ?_⟩
+  · intro hn
+    obtain ⟨r, hr⟩ := F.reaches 0 ⟨Int.le_refl 0, by omega⟩
+    exact F.cnt_pos hr.is_root.1 hr.is_root.2
+  · intro p hp
+    obtain ⟨r, hr⟩ := F.reaches p hp
+    exact ⟨r, F.findLoop_eq hr, hr.is_root⟩
+
+/-- weighted quick-union: the same -/
+theorem C17_weighted_find_terminates (n : Nat) (us : List (Int × Int)) (u : Weighted)
+    (h : (Weighted.new n).run us = .ok u) :
+    u.root.size = n ∧ u.size.size = n ∧
+    (∃ rk : Int → Nat, (∀ i, Valid n i → par u.root i ≠ i → rk i < rk (par u.root i)) ∧
+      (∀ i, Valid n i → (rk i : Int) + u.count ≤ n)) ∧
+    (0 < n → 1 ≤ u.count) ∧
+    (∀ p, Valid n p → ∃ r, findLoop u.root n p = .ok r ∧ Valid n r ∧ par u.root r = r) := by
+  obtain ⟨u', h', W⟩ := Weighted.run_inv us (WQInv.init n)
+  rw [h] at h'; cases h'
+  have F := W.qu.forest
+  refine ⟨F.size, W.sizes, F.rank, ?_, ?_⟩
+  · intro hn
+    obtain ⟨r, hr⟩ := F.reaches 0 ⟨Int.le_refl 0, by omega⟩
+    exact F.cnt_pos hr.is_root.1 hr.is_root.2
+  · intro p hp
+    obtain ⟨r, hr⟩ := F.reaches p hp
+    exact ⟨r, F.findLoop_eq hr, hr.is_root⟩
+
+/-- quick-find has no loop: its forest has depth ≤ 1 (`id[id[i]] = id[i]`) -/
+theorem C17_quickFind_flat (n : Nat) (us : List (Int × Int)) (u : QuickFind)
+    (h : (QuickFind.new n).run us = .ok u) :
+    u.id.size = n ∧ ∀ i, Valid n i → Valid n (par u.id i) ∧ par u.id (par u.id i) = par u.id i := by
+  obtain ⟨u', h', I⟩ := QuickFind.run_inv us (QFInv.init n)
+  rw [h] at h'; cases h'
+  exact ⟨I.size, fun i hi => ⟨I.repr.valid i hi, I.repr.idem i hi⟩⟩
+
+-- the fuel bound is met exactly: on the path 0 -> 1 -> 2 -> 3 the loop condition is evaluated n = 4
+-- times from element 0; one unit less diverges.
+example : (QuickUnion.new 4).run [(0, 1), (0, 2), (0, 3)] = .ok ⟨1, #[1, 2, 3, 3]⟩ := by decide
+example : findLoop #[1, 2, 3, 3] 4 0 = .ok 3 ∧ findLoop #[1, 2, 3, 3] 3 0 = .diverge := by decide
+
+/-! ## the three implementations agree -/
+
+/-- same answers to `IsConnected` and `Count`, and `Find` induces the same partition, after the
+same history — although the three internal states (and the representatives) differ -/
+theorem C17_implementations_agree (n : Nat) (us : List (Int × Int)) :
+    ∃ qf qu wq, (QuickFind.new n).run us = .ok qf ∧ (QuickUnion.new n).run us = .ok qu ∧
+      (Weighted.new n).run us = .ok wq ∧
+      (∀ p q, qf.isConnected p q = qu.isConnected p q ∧ qu.isConnected p q = wq.isConnected p q) ∧
+      qf.getCount = qu.getCount ∧ qu.getCount = wq.getCount := by
+  obtain ⟨qf, h1, T1⟩ := C17_quickFind_tracks n us
+  obtain ⟨qu, h2, T2⟩ := C17_quickUnion_tracks n us
+  obtain ⟨wq, h3, T3⟩ := C17_weighted_tracks n us
+  refine ⟨qf, qu, wq, h1, h2, h3, ?_, ?_, ?_⟩
+  · intro p q
+    obtain ⟨b1, e1, i1⟩ := T1.connected_iff p q
+    obtain ⟨b2, e2, i2⟩ := T2.connected_iff p q
+    obtain ⟨b3, e3, i3⟩ := T3.connected_iff p q
+    rw [e1, e2, e3]
+    have h12 : b1 = b2 := by
+      cases b1 <;> cases b2 <;> simp_all
+    have h23 : b2 = b3 := by
+      cases b2 <;> cases b3 <;> simp_all
+    exact ⟨by rw [h12], by rw [h23]⟩
+  · have := T1.count_merges; have := T2.count_merges; omega
+  · have := T2.count_merges; have := T3.count_merges; omega
